@@ -112,6 +112,11 @@ def make_forest(r, root):
             os.mkdir(q)
             entries[q] = "d"
             dirs.append(q)
+    # a directory whose own path is long (descriptor links under /proc report a fixed size, whatever the length of their target)
+    q = root + "/a-directory-with-a-rather-long-name-so-that-its-path-is-much-longer-than-sixty-four-bytes"
+    os.mkdir(q)
+    entries[q] = "d"
+    dirs.append(q)
     for _ in range(r.randint(3, 10)):
         q = r.choice(dirs) + "/" + r.choice(["f", "g", "t.txt"])
         if q not in entries:
@@ -191,7 +196,7 @@ def run(c):
         lines.append("chdir " + cwd)
         slots = {}
         for s in range(1, 5):
-            slots[s] = r.choice(dirs)
+            slots[s] = r.choice(dirs) if s > 1 else [d for d in dirs if "rather-long-name" in d][0]
             lines.append("opendir %d %s" % (s, slots[s]))
         ops = []
         for oi in range(nops):
@@ -218,6 +223,8 @@ def run(c):
                 elif kind < 0.12:
                     p = r.choice(["/proc/self/cwd/", "/proc/thread-self/cwd/", "/proc/self/root" + root + "/", "/proc/thread-self/root" + root + "/", "/proc/self/root" + root + "/",
                                   "/proc/self/fd/%d/" % 0,
+                                  # descriptors of the program itself (@k@ is replaced by the number of its k-th directory descriptor)
+                                  "/proc/self/fd/@1@/", "/proc/self/fd/@1@/", "/proc/thread-self/fd/@%d@/" % r.choice([1, 2, 3]), "/dev/fd/@%d@/" % r.choice([1, 2, 4]),
                                   # the same entries reached by other spellings: through "..", ".", a doubled slash, a relative link of the forest
                                   "/proc/../proc/self/cwd/", "//proc/self/cwd/", "/proc/./self/cwd/", "/proc/self/../self/cwd/", "/proc//thread-self/./cwd/",
                                   "/usr/../proc/self/cwd/", lps + "/cwd/", lps + "/root" + root + "/"]) + r.choice(["a", "f", "l0", "..", "b/../a", "l1/../c", "c/l2"])
@@ -347,7 +354,7 @@ def run(c):
                     if op["name"] in ("open", "openat") and v & O_CREAT and v & O_EXCL:
                         follow = False
                 want = tf if follow else tn
-                isproc = ck["path"].startswith("/proc/") or "lps" in ck["path"].split("/") or "/proc/" in ck["path"]
+                isproc = ck["path"].startswith("/proc/") or "lps" in ck["path"].split("/") or "/proc/" in ck["path"] or ck["path"].startswith("/dev/fd/")
                 # aliases through the root link are inside the model (the /proc entries of the tracee are part of the forest)
                 rootalias = ck["path"].startswith("/proc/self/root/") or ck["path"].startswith("/proc/thread-self/root/") or "/lps/root/" in ck["path"]
                 if klass == "syscall":
